@@ -9,6 +9,7 @@ from vlib import cfgunit, configrun, gen_envelope as GE, gen_json as G, gen_meta
     related
 from vlib.ref_canon import canon
 from vlib.runner import Unit, Violation
+from vlib import clicheck as _clicheck
 from vlib import threaded as _threaded
 from vlib import interfere as _interfere, interrupt as _interrupt
 
@@ -27,7 +28,7 @@ ASSUMPTIONS = ["versions are Python ints; integral-float / bool versions are gra
 
 FLAWS = ["none", "none", "none", "version", "version", "trusted_sigs", "own_sigs", "type_T", "type_N", "noroot_T", "noroot_N",
          "malformed_T", "malformed_N", "junk_entry", "self_appointed", "threshold_from_new", "spelling_dups", "dup_keys_T", "dup_keys_N",
-         "raised_threshold"]
+         "raised_threshold", "many_one_short"]
 VERSION_PLANS = ["v", "v-1", "v+2", "1", "huge"]
 ENTRY_STATES = ["valid", "valid", "valid", "valid", "nonce", "raw_shape", "bitflip", "other_payload", "misfiled", "hex_whitespace"]
 
@@ -42,6 +43,12 @@ def root_pairs(draw):
     n = len(seeds)
     pubs = [keys.pub_hex(s) for s in seeds]
     flaw = draw(st.sampled_from(FLAWS))
+    if flaw == "many_one_short":
+        # 9-20 root keys, every one of them has an entry, exactly one too few of the entries are valid (cut-offs like "more than
+        # 8 candidates are checked in parallel" are only reached by such offers)
+        seeds = keys.derived_seeds(draw(st.integers(0, 2 ** 32)), draw(st.integers(9, 20)))
+        n = len(seeds)
+        pubs = [keys.pub_hex(s) for s in seeds]
     v = draw(GM.versions)
     kt_mask = draw(st.integers(1, 2 ** n - 1))
     KT = GM.subset_by_mask(list(range(n)), kt_mask)
@@ -79,6 +86,12 @@ def root_pairs(draw):
         tT = draw(st.integers(1, len(KT) - 1))
         tN = draw(st.integers(tT + 1, len(KN)))
         signers = list(draw(st.permutations(KT)))[:draw(st.integers(tT, tN - 1))]
+    elif flaw == "many_one_short":
+        KT = list(range(n))
+        KN = list(draw(st.permutations(KT)))
+        tT = tN = draw(st.integers(2, n))
+        signers = list(draw(st.permutations(KT)))
+        forced = {i: ("valid" if j < tT - 1 else draw(st.sampled_from(["bitflip", "other_payload", "misfiled"]))) for j, i in enumerate(signers)}
     elif flaw == "spelling_dups":
         # one signer short of the trusted threshold; the shortfall is "made up" by alternative spellings
         tT = max(2, tT) if len(KT) >= 2 else 2
@@ -126,7 +139,7 @@ def root_pairs(draw):
     N = GM.wrap(ns)
     B = canon(ns)
     for i in signers:
-        state = draw(st.sampled_from(ENTRY_STATES)) if flaw in ("none", "junk_entry") or (
+        state = forced[i] if flaw == "many_one_short" else draw(st.sampled_from(ENTRY_STATES)) if flaw in ("none", "junk_entry") or (
             flaw != "version" and draw(st.integers(0, 3)) == 0) else "valid"
         s = seeds[i]
         hdr = draw(GE.HEADERS)
@@ -322,6 +335,9 @@ UNITS = [
                     "only-false=rootdeleg", "accept:rotated", "only-false=wf_N", "only-false=wf_T"],
          doc="verify_root verdict and error class == independent root-update rule, both directions"),
     _interfere.unit_after(PROPERTY, 'pairs', quick=150, thorough=6000),
-    _interrupt.unit_interrupted(PROPERTY, 'pairs', quick=12, thorough=300, max_points=50, shards_quick=12),
+    _interrupt.unit_interrupted(PROPERTY, 'pairs', quick=12, thorough=300, max_points=50, shards_quick=12,
+                                filter_case=lambda c: c["flaw"] != "many_one_short"),
     _threaded.unit_threads(PROPERTY),
+    _clicheck.unit_cli(),
+    cfgunit.unit_under_clocks(PROPERTY, 'pairs'),
 ]
